@@ -288,6 +288,8 @@ def run(ctx):
     with multiprocessing.get_context("fork").Pool(16, maxtasksperchild=1) as pool:
         for r in pool.imap_unordered(shard, specs):
             acc.merge(r)
+            if __import__('mc.runner').runner.enough(acc):
+                break
     cov = {
         "evaluations": acc.n, "distinct_nontrivial": acc.nontrivial,
         "rule": "%d texts (every string of length <= %s over %r%s, plus %d curated borderline texts) x 11 "
